@@ -442,9 +442,10 @@ def c11(res, ctx):
     k = 0
     for i in range(0, len(cases), 2):
         a, b = impl[i], impl[i + 1]
-        if model is not None and (model[i] != a or model[i + 1] != b):
-            res.tie_break('eval', cases[i], model[i], a)
-            k += 1; continue
+        if model is not None:
+            for j in (i, i + 1):
+                if model[j] != impl[j]:
+                    res.tie_break('eval', cases[j], model[j], impl[j])
         try:
             va, vb = int(a.split(' ')[0]), int(b.split(' ')[0])
         except ValueError:
